@@ -147,7 +147,7 @@ package blob
 //@ func (*parser).addShares
 //@   property C11
 //@   nopanic
-//@   requires p != nil && (p.shares == nil || !sameArray(p.shares, shares))
+//@   requires p != nil
 //@   modifies p
 //@   modifies p.shares
 //@   ensures p.index == old(p.index) && p.length == old(p.length) && p.verifyFn == old(p.verifyFn)
@@ -170,3 +170,30 @@ package blob
 //@   requires p != nil
 //@   modifies p
 //@   ensures p.index == 0 && p.length == 0 && p.shares == nil && p.verifyFn == old(p.verifyFn)
+
+// parse turns the collected shares into a blob and stamps it with the parser's index.
+//@ func (*parser).parse
+//@   property C11
+//@   nopanic
+//@   requires p != nil
+//@   ensures err == nil ==> result0 != nil && result0.index == p.index && len(p.shares) == p.length
+
+//@ func (*parser).verify
+//@   property C11
+//@   trusted
+
+// retrieve walks the rows of a namespace. Inside one row, `index` is the column of the first share of
+// appShares and appShares is the not yet consumed tail of the row's shares: with c = index - start
+// (start: where the row's proof says the namespace begins), appShares == row.Shares[c:]. The parser is
+// positioned (set) exactly at EDS position rowIndex*width + index, so by set's contract a blob's index
+// is the EDS position of its first non-padding share: row rowIndex, column start + (its offset in the
+// row's shares) - whatever padding, other blobs of the namespace or earlier rows came before it.
+//@ func (*Service).retrieve
+//@   property C11
+//@   noframe
+//@   requires s != nil && sharesParser != nil
+//@   param .headerGetter: ensures $result1 == nil ==> $result0 != nil && $result0.DAH != nil
+//@   callpre parser).set: $arg1 == rowIndex*len(header.DAH.RowRoots) + index && $arg2 == appShares
+//@   loop 3: invariant 0 <= index - deref(row.Proof).start && index - deref(row.Proof).start <= len(row.Shares)
+//@   loop 3: invariant len(appShares) == len(row.Shares) - (index - deref(row.Proof).start)
+//@   loop 3: invariant len(appShares) > 0 ==> appShares == row.Shares[index - deref(row.Proof).start:]
